@@ -67,6 +67,8 @@ pub struct ExecRecord {
     pub storage: Vec<sim::StorageOp>,
     pub readbacks: Vec<(String, Option<bool>, String)>,
     pub getters: BTreeMap<String, u64>,
+    pub writes_by_job: BTreeMap<String, u32>,
+    pub rewriters: Vec<String>,
     /// items whose value may be dropped from memory after persisting without anyone noticing,
     /// if persistence is faithful: written, read only through get(), never scanned
     pub evictable: Vec<String>,
@@ -351,6 +353,8 @@ pub fn execute(plan: &Plan, sandbox: &Path, verbose: bool) -> ExecRecord {
         storage: state.storage.clone(),
         readbacks: state.readbacks.clone(),
         getters: state.getters.clone(),
+        writes_by_job: state.writes_by_job.clone(),
+        rewriters: state.rewriters.iter().cloned().collect(),
         evictable: state
             .written_items
             .iter()
